@@ -57,7 +57,8 @@ theorem cmd_switch {s : St} {ch : Channel} (L : Lift s ch) (F : Channel → Chan
   have h1 : (s.switchChannel 0 0).chans[0]? = some (wordBreak ch true) := by
     unfold St.switchChannel
     exact modCh_get_same _ L.get
-  exact ⟨modCh_get_same F h1, by rw [modCh_currChan]; rfl⟩
+  exact ⟨modCh_get_same F h1, by
+    rw [modCh_currChan]; unfold St.switchChannel; exact (setCurr_field1 _ (by decide)).1⟩
 
 /-- the misc control codes of CC1 (first byte 0x14) used by the three caption styles -/
 theorem cc1_commands {s : St} (hcur : s.currChan = 0) :
@@ -70,7 +71,7 @@ theorem cc1_commands {s : St} (hcur : s.currChan = 0) :
     captionCommand s 0x14 0x26 false = (s.switchChannel 0 0).modCh 0 (fun ch => rollUpCmd ch 3) ∧
     captionCommand s 0x14 0x27 false = (s.switchChannel 0 0).modCh 0 (fun ch => rollUpCmd ch 4) := by
   unfold captionCommand
-  rw [hcur]
+  rw [curr_false, hcur]
   refine ⟨rfl, rfl, rfl, rfl, rfl, rfl, rfl, rfl⟩
 
 theorem cc1_pac {s : St} (hcur : s.currChan = 0) {lo c2 : Nat} (hlo : lo < 8) (h2 : 0x40 ≤ c2) :
@@ -79,7 +80,7 @@ theorem cc1_pac {s : St} (hcur : s.currChan = 0) {lo c2 : Nat} (hlo : lo < 8) (h
   obtain ⟨k1, k2⟩ := key lo hlo
   rw [dispatch_pac s _ c2 false h2]
   unfold cmdChan
-  rw [hcur, k1, k2]
+  rw [curr_false, hcur, k1, k2]
   rfl
 
 
@@ -139,7 +140,7 @@ theorem lift_text {s : St} {ch : Channel} (L : Lift s ch) (hm : ch.mode ≠ .non
     have h1 : ¬ (1 ≤ a ∧ a ≤ 0x0F) := by omega
     have h2 : ¬ (0x10 ≤ a ∧ a ≤ 0x1F) := by omega
     have h3 : ¬ (par8 a = 0x80 ∧ par8 b = 0x80) := fun h => n80 ha h.1
-    rw [if_neg h1, if_neg h2, L.cur]
+    rw [if_neg h1, if_neg h2, curr_false, L.cur]
     simp only [h3, if_false, Bool.not_false, if_true]
     rfl
   rw [e, ← textPair_codes hch hm ha ha' hb]
